@@ -306,11 +306,13 @@ def evaluate(case: dict[str, Any]) -> tuple[list[tuple[str, bool, str]], bool]:
         by_height.setdefault(int(area["height"]), []).append(area)
     late_crossers = _late_crossing_names(case, features)
     for height, members in by_height.items():
-        for first, second in itertools.combinations(members, 2):
+        # members are in the order the row was filled; the packer compares an origin-spanning newcomer with the
+        # first content only, so the dedicated clause takes the pairs (later content, origin-spanning newcomer)
+        for (i, first), (_, second) in itertools.combinations(enumerate(members), 2):
             overlap = (_get(first, "neighbouring_start") < _get(second, "neighbouring_end")
                        and _get(second, "neighbouring_start") < _get(first, "neighbouring_end"))
-            special = any(id(a) in owner and (owner[id(a)].kind, owner[id(a)].name) in late_crossers
-                          for a in (first, second))
+            special = i > 0 and id(second) in owner and \
+                (owner[id(second)].kind, owner[id(second)].name) in late_crossers
             if special:
                 saw_cross_pair = True
             if overlap:
